@@ -172,7 +172,7 @@ def judge(ctx, binary, traces, batches, tag, seen):
     def one(it):
         i, ev = it
         return validate_history_trace(ctx, SPEC, "CfgTraceP", project_p(ev), tag="%s%d" % (tag, i), max_rounds=4)
-    res = parallel(one, list(enumerate(traces)), n=8)
+    res = parallel(one, list(enumerate(traces)), n=5)
     for bi, ((acc, rejected, rounds), ev) in enumerate(zip(res, traces)):
         cfg, hs = split_histories(ev)
         ids = {k + 1: c for k, c in enumerate(batches[bi])}
@@ -205,6 +205,29 @@ def judge(ctx, binary, traces, batches, tag, seen):
             ctx.violation(w, {"case": c, "trace": reproduced, "clause": w["class"]})
 
 
+def drift_check(ctx, traces, batches, tag, stats):
+    """bind the implementation-shaped model to the code: every recorded event sequence (sequential cases) must be a
+    behaviour of CfgUpdateI.  A mismatch is model drift (DESIGN §2.5), never a violation."""
+    def one(it):
+        i, ev = it
+        cfg, hs = split_histories(ev)
+        ids = {k + 1: c for k, c in enumerate(batches[i])}
+        hs = [h for h in hs if not ids[h[0]["case"]].get("conc")]
+        if not hs:
+            return 0, []
+        flat = [cfg] + [e for h in hs for e in h]
+        acc, rej, _ = validate_history_trace(ctx, SPEC, "CfgTraceI", flat, tag="I%s%d" % (tag, i), max_rounds=3)
+        return acc, [(ids[r["hist"][0]["case"]], r) for r in rej]
+    for acc, rej in parallel(one, list(enumerate(traces)), n=5):
+        stats["accepted"] += acc
+        for c, r in rej:
+            stats["rejected"] += 1
+            if len(stats["examples"]) < 3:
+                h, at = r["hist"], r["at"]
+                stats["examples"].append({"case": {k: v for k, v in c.items() if k != "id"},
+                                          "unexplained_event": h[min(at, len(h) - 1)], "index": at})
+
+
 # ------------------------------------------------------------------------------------------------ run
 def run(ctx):
     T = ctx.thorough
@@ -222,7 +245,7 @@ def run(ctx):
                         "a failure injected into the roll-back itself (after the handler signalled failure) exempts the case",
                         "fs.store fails after the old file was removed and before the new one is created",
                         "updates are issued one at a time (the handler's TryLock is not raced)"]
-    endpoints = ["configuration"]
+    endpoints = ["configuration", "configuration", "apply_flows"]
 
     # (1) exhaustive: I => P on the bounded instance; every deviation flag must be refuted (non-vacuity)
     # (2) spec -> code: TLC enumerates the cases (terminal states of the model without probes) with predicted outcomes
@@ -232,17 +255,22 @@ def run(ctx):
             return ctx.tlc_exhaustive(sd, "MC_C08", arg, timeout=1500, label="I=>P, all cases x all interleavings of probes")
         if kind == "nv":
             return ctx.tlc(sd, "MC_C08", "MC_nv_%s.cfg" % arg, workers=2, timeout=600, label="non-vacuity: %s must be refuted" % arg)
+        if kind == "rand":     # the seeded random cases do not depend on TLC's output: record them meanwhile
+            return run_batches(ctx, binary, arg, "rand")
         return ctx.tlc(sd, "GenC08", arg, workers=4, timeout=900, label="case generation")
-    flags = ["RestoreWrongDirection", "PublishBeforeInit", "ContinueAfter405"]
+    flags = ["RestoreWrongDirection", "PublishBeforeInit", "ContinueAfter405", "ApplyNoBackup"]
+    nr = 180 if not T else 6000
+    rc = [rand_case(ctx.rng, T, endpoints) for _ in range(nr)]
+    rbatches = batches_of(rc, 4 if not T else 8)
     jobs = [("mc", "MC_quick.cfg" if not T else "MC_thorough.cfg")] + [("nv", f) for f in flags] + \
-           [("gen", "GenC08.cfg" if not T else "GenC08_thorough.cfg")]
+           [("rand", rbatches), ("gen", "GenC08.cfg" if not T else "GenC08_thorough.cfg")]
     if T:
         jobs.insert(1, ("mc", "MC_thorough3.cfg"))
     res = parallel(stage, jobs, n=len(jobs))
     for (kind, arg), r in zip(jobs, res):
         if kind == "nv" and r.violated is None:
             raise Broken("model cannot tell deviation %s from the property (vacuous refinement check): %r" % (arg, r))
-    g = res[-1]
+    g, rtraces = res[-1], res[-2]
     outs = tlc_vh_lines(g.out)
     if len(outs) < 1000:
         raise Broken("case generation produced %d outcomes: %s" % (len(outs), g.out[-1500:]))
@@ -252,29 +280,87 @@ def run(ctx):
         predicted.setdefault(case_key(c), (c, []))[1].append(o)
     gen = [v[0] for v in predicted.values()]
     health = [c for c in gen if (c.get("fault") or {}).get("point") == "health"]
-    gen = [c for c in gen if (c.get("fault") or {}).get("point") != "health"]      # 10 s each: only a few
+    gen = [c for c in gen if (c.get("fault") or {}).get("point") != "health"]      # 10 s each: only a few, in a batch of their own
     rng = random.Random(ctx.seed)
     rng.shuffle(gen)
     rng.shuffle(health)
-    ngen = 560 if not T else len(gen)
-    sel = gen[:ngen] + health[: (1 if not T else 4)]
-    ctx.cov["exhaustive"] = bool(T)
-    ctx.log("TLC generated %d outcomes / %d cases; replaying %d" % (len(outs), len(predicted), len(sel)))
-    seen = set()
-    nb = 8 if not T else 14
-    batches = batches_of(sel, nb)
-    traces = run_batches(ctx, binary, batches, "gen")
-    ctx.sample({"kind": "generated-case", "case": sel[0], "model_outcome": predicted[case_key(sel[0])][1][0]})
-    judge(ctx, binary, traces, batches, "gen", seen)
-
+    ngen = 420 if not T else min(len(gen), 24000)
+    sel = gen[:ngen]
+    ctx.cov["exhaustive"] = bool(T) and ngen == len(gen)
     # (3) code -> spec: seeded random cases over a wider universe (three flows, quota / path-parameter files, several bad files,
-    #     other verbs, concurrent probe goroutines), recorded and validated
-    nr = 240 if not T else 4000
-    rc = [rand_case(ctx.rng, T, endpoints) for _ in range(nr)]
-    rb = batches_of(rc, nb)
-    rtraces = run_batches(ctx, binary, rb, "rand")
-    ctx.sample({"kind": "recorded-trace", "events": [e for e in rtraces[0][1:40] if e["ev"] != "haproxy"][:16]})
-    judge(ctx, binary, rtraces, rb, "rand", seen)
+    #     other verbs, concurrent probe goroutines), recorded and validated together with the generated ones
+    ctx.log("TLC generated %d outcomes / %d cases; replaying %d of them + %d seeded random cases + %d health-check failures" % (
+        len(outs), len(predicted), len(sel), len(rc), 1 if not T else 4))
+    nb = 7 if not T else 14
+    batches = batches_of(sel, nb) + [health[: (1 if not T else 4)]]
+    traces = run_batches(ctx, binary, batches, "gen")
+    batches, traces = batches + rbatches, traces + rtraces
+    ctx.log("recorded %d cases in %d processes" % (sum(len(b) for b in batches), len(batches)))
+    ctx.sample({"kind": "generated-case", "case": {k: v for k, v in sel[0].items() if k != "id"},
+                "model_outcome": predicted[case_key(sel[0])][1][0]})
+    ctx.sample({"kind": "recorded-trace", "events": [e for e in traces[0][1:60] if e["ev"] != "haproxy"][:18]})
+    seen = set()
+    drift = {"accepted": 0, "rejected": 0, "examples": []}
+    parallel(lambda f: f(), [lambda: judge(ctx, binary, traces, batches, "p", seen),
+                             lambda: drift_check(ctx, traces, batches, "i", drift)], n=2)
+    ctx.notes.append("implementation-shaped model vs code: %d recorded cases accepted by CfgTraceI, %d not explained" %
+                     (drift["accepted"], drift["rejected"]))
+    if drift["rejected"]:
+        ctx.cov["model_drift"] = True
+        ctx.notes.append("MODEL-DRIFT examples: %s" % json.dumps(drift["examples"])[:1500])
+        ctx.log("MODEL-DRIFT: %d cases not explained by CfgUpdateI, e.g. %s" % (drift["rejected"], json.dumps(drift["examples"][:1])[:600]))
+        if not ctx.violations and not ctx.known_hits:
+            # the property held on everything observed but the exhaustive result no longer speaks about this code
+            ctx.cov["states"] = 0
+            ctx.cov["transitions"] = 0
+
+    # (4) binding self-test (thorough): corrupted / truncated recordings and a wrong model must be rejected
+    if T:
+        self_test(ctx, traces, batches)
+
+
+def self_test(ctx, traces, batches):
+    ev = project_p(traces[0])
+    cfg, hs = split_histories(ev)
+    failed = next((h for h in hs if any(e["ev"] == "reply" and not e["ok"] for e in h) and
+                   any(e["ev"] == "status" for e in h) and not any(e["ev"] == "fault" for e in h)), None)
+    okh = next((h for h in hs if any(e["ev"] == "reply" and e["ok"] for e in h)), None)
+    if failed is None or okh is None:
+        raise Broken("self-test: no failed / successful case in the first batch")
+    results = {}
+    # (a) corrupt one field: the tree after a failed update differs in one file
+    bad = [dict(e) for e in failed]
+    for e in bad:
+        if e["ev"] == "reply":
+            e["disk"] = dict(e["disk"]); e["disk"]["flows/zz.yaml"] = "v2"; e["tree"] = "0" * 64
+    _, rej, _ = validate_history_trace(ctx, SPEC, "CfgTraceP", [cfg] + bad, tag="self-a", max_rounds=1)
+    results["tree changed after failure"] = bool(rej) and rej[0].get("invariant") == "DiskAtomic"
+    # (b) corrupt one field: a probe during a successful update answered by an empty engine
+    bad = [dict(e) for e in okh]
+    k = max(i for i, e in enumerate(bad) if e["ev"] == "probe")
+    bad[k]["served"] = {f: "none" for f in bad[k]["served"]}
+    _, rej, _ = validate_history_trace(ctx, SPEC, "CfgTraceP", [cfg] + bad, tag="self-b", max_rounds=1)
+    results["probe served by an empty engine"] = bool(rej) and rej[0].get("invariant") == "NeverHalf"
+    # (c) drop one event: the call
+    drop = [e for e in okh if e["ev"] != "call"]
+    _, rej, _ = validate_history_trace(ctx, SPEC, "CfgTraceP", [cfg] + drop, tag="self-c", max_rounds=1)
+    results["dropped call event"] = bool(rej)
+    # (d) implementation model: drop one file-system event / validate against the model of the pinned (defective) Restore
+    full_cfg, full_hs = split_histories(traces[0])
+    ids = {k + 1: c for k, c in enumerate(batches[0])}
+    rb = next((h for h in full_hs if not ids[h[0]["case"]].get("conc") and
+               sum(1 for e in h if e["ev"] == "fs" and e["op"] == "store") >= 2 and
+               any(e["ev"] == "reply" and not e["ok"] for e in h) and not any(e["ev"] == "fault" for e in h)), None)
+    if rb is None:
+        raise Broken("self-test: no rolled-back case in the first batch")
+    k = next(i for i, e in enumerate(rb) if e["ev"] == "fs" and e["op"] == "store")
+    _, rej, _ = validate_history_trace(ctx, SPEC, "CfgTraceI", [full_cfg] + [e for i, e in enumerate(rb) if i != k], tag="self-d", max_rounds=1)
+    results["dropped fs.store event (model I)"] = bool(rej)
+    _, rej, _ = validate_history_trace(ctx, SPEC, "CfgTraceI", [full_cfg] + rb, cfg="CfgTraceI_wrong.cfg", tag="self-e", max_rounds=1)
+    results["model of the defective Restore rejects the repaired code"] = bool(rej)
+    ctx.notes.append("self-test: " + json.dumps(results))
+    if not all(results.values()):
+        raise Broken("binding self-test failed: %s" % json.dumps(results))
 
 
 def replay(ctx, path):
